@@ -300,10 +300,13 @@ func genC17(seed int64, tier string) *Scenario {
 		for i := 0; i < n; i++ {
 			cs = append(cs, randC17Config(r, false))
 		}
+		if r.Intn(4) == 0 {
+			cs[len(cs)-1].AllEnable = false // the last change switches everything off (events may follow)
+		}
 		sc.Knobs["configs"] = cs
 		// file events interleaved with the configuration changes
 		var evs []interface{}
-		for i := 0; i < n; i++ {
+		for i := 0; i <= n; i++ { // i == n: after the last settings change
 			if r.Intn(2) == 0 {
 				names := []string{"src/use.lua", "lib/def.lua", "src/new.lua", "lib/misc.lua"}
 				nm := names[r.Intn(len(names))]
@@ -644,6 +647,21 @@ func checkC17(t *testing.T, sc *Scenario) *Verdict {
 				}
 			}
 			h.Ops = append(h.Ops, Op{Kind: "config", Params: c.settings()})
+		}
+		for _, ev := range evs {
+			// file events after the last settings change: they are handled under those settings
+			if at, _ := ev["at"].(float64); int(at) == len(cs) {
+				if w, ok := ev["write"].(string); ok {
+					d, _ := ev["data"].(string)
+					h.Ops = append(h.Ops, Op{Kind: "fswrite", Path: w, Data: Bytes(d)}, Op{Kind: "deliver"})
+					disk[w] = d
+				} else if rm, ok := ev["remove"].(string); ok {
+					if _, ex := disk[rm]; ex {
+						h.Ops = append(h.Ops, Op{Kind: "fsremove", Path: rm}, Op{Kind: "deliver"})
+						delete(disk, rm)
+					}
+				}
+			}
 		}
 		hr := run(h)
 		if hr.Outcome != OutOK {
